@@ -192,6 +192,15 @@ def run_machine(factory, n, hseed, sink, steps):
     run_state_machine_as_test(machine, settings=_settings(n, False, stateful_step_count=steps))
 
 
+THOROUGH_SCALE = 4     # thorough-tier example counts in the property modules are multiplied by this
+
+
+def phase_total(mod, ph, tier):
+    if tier == "quick":
+        return ph.examples[0]
+    return int(ph.examples[1] * getattr(mod, "THOROUGH_SCALE", THOROUGH_SCALE))
+
+
 def shard_seed(seed, shard, phase_idx):
     return (int(seed) * 1000 + shard) * 100 + phase_idx
 
@@ -220,7 +229,7 @@ def run_shard(args):
                         continue
                     stats.add(mod, ph.name, shard, case, mod.check_case(case))
             else:
-                total = ph.examples[0] if tier == "quick" else ph.examples[1]
+                total = phase_total(mod, ph, tier)
                 n = total // nshards + (1 if shard < total % nshards else 0)
                 if n <= 0:
                     continue
@@ -263,7 +272,7 @@ def shrink_failure(mod, tier, seed, nshards, rec, sig, budget_s):
                     return small, f.detail
         return best["case"], best["detail"]
     shard = rec["shard"]
-    total = ph.examples[0] if tier == "quick" else ph.examples[1]
+    total = phase_total(mod, ph, tier)
     n = total // nshards + (1 if shard < total % nshards else 0)
     t0 = time.time()
 
